@@ -13,7 +13,7 @@ from streams.cluster import hx
 
 NO_MODEL = True
 HEADER = 3
-REQUIRED_SHAPES = ["write_during_routing_update", "join", "leave", "stacked_handovers", "read_with_previous_owner", "delete_with_previous_owner", "overwrite_with_previous_owner", "between_table_moves",
+REQUIRED_SHAPES = ["slow_consumer_during_handover", "write_during_routing_update", "join", "leave", "stacked_handovers", "read_with_previous_owner", "delete_with_previous_owner", "overwrite_with_previous_owner", "between_table_moves",
                    "stable_all_members_read", "exactly_once_primary", "backups_kept", "prefixed_dmap_name"]
 DMS = ["dm", "dmap.x", "x"]
 
@@ -119,6 +119,16 @@ class Oracle:
             self.hit("scan_during_handover" if self.handover else "scan_after_stabilisation")
             if name == "c.scanall" and len(set(got)) != len(got):
                 return "the client iterator over %s yielded a key twice: %s" % (dm, sorted(got)[:12])
+            tok = reply.split()[0]
+            if name == "c.scanall" and "reqs=" in tok:
+                reqs = int(tok.split("reqs=")[1])
+                nk = len([1 for (d, k) in self.exp if d == dm]) + 8
+                nm = max(len(self.alive), 1) + 2
+                bound = 4 * nk * nm + 6 * int(self.cfg.get("parts", 7)) * nm + 50
+                self.hit("iterator_requests_bounded")
+                if reqs > bound:
+                    return ("the client iterator over %s needed %d scan requests for %d keys (at most %d when every owner of a partition is "
+                            "walked once): owners that were finished are asked again" % (dm, reqs, nk - 8, bound))
             extra, missing = sorted(set(got) - live), sorted(live - set(got))
             if name == "c.rawscan" or (self.handover and self.left):
                 # the raw walk of the harness asks the primary owner's primary copies only: during a hand-over the previous
@@ -236,7 +246,42 @@ class Gen:
         for d in DMS:
             yield "wb.keys %s" % d
 
+    def slow_consumer(self, orc):
+        """directed: a partition with a previous owner (one old key there) and a current owner that holds a new key, the
+        overwritten old key, then more new keys - in that order; a client iterates with COUNT 1 and takes more than a second
+        (real time: the iterator refreshes its routing table every second) over one of the keys.  Every key was present
+        during the whole iteration."""
+        r = self.rng
+        yield "watchdog 300s"
+        yield "clock 0"
+        yield "c.new n=1 r=%d w=1 rq=1 rr=0 parts=3 tsize=4096" % r.choice([1, 1])
+        parts = {}
+        for i in range(30):
+            k = hx(b"c%d" % i)
+            rep = yield "c.own dm %s" % k
+            parts.setdefault(int(rep.split("part=")[1].split()[0]), []).append(k)
+        for pid, ks in sorted(parts.items()):
+            yield "c.put emb 0 dm %s %s" % (ks[0], hx(b"old"))
+        yield "c.add nosync"
+        rep = yield "c.converge"
+        if rep == "not-converged":
+            return
+        yield "c.update"
+        n = len(parts)
+        for pid, ks in sorted(parts.items()):
+            rep = yield "c.own dm %s" % ks[0]
+            if "," in rep.split("pick=")[1].split("/")[0] and len(ks) >= 4:
+                for k, v in ((ks[1], b"n1"), (ks[0], b"over"), (ks[2], b"n2"), (ks[3], b"n3")):
+                    yield "c.put emb %d dm %s %s" % (r.randrange(2), k, hx(v))
+                n += 3
+        for i in range(1, n + 1):
+            yield "c.scanall %s dm * 1 slow=%d" % (r.choice(["emb 0", "emb 1", "cli 0", "cli 1"]), i)
+            orc.hit("slow_consumer_during_handover")
+
     def episode(self, orc, nops):
+        if getattr(self, "ep", 0) % 8 == 5:
+            yield from self.slow_consumer(orc)
+            return
         if getattr(self, "ep", 0) % 4 == 3:
             yield from self.unreachable_receiver(orc)
             return
